@@ -86,7 +86,7 @@ def gen_world(r, anp=False, big=False, pods=True, multi_kind=True):
               'labels': {k: ('' if r.random() < 0.06 else r.choice(VALS)) for k in r.sample(KEYS, r.randint(0, 3))}, 'ports': ports,
               'replicas': r.choice([None, 0, 1, 2, 3]), 'owner': None}
         if kind == 'Pod' and r.random() < 0.4:
-            wl['owner'] = {'name': 'own%d' % i, 'kind': r.choice(['ReplicaSet', 'StatefulSet', 'Job'])}
+            wl['owner'] = {'name': 'own%d' % i, 'kind': r.choice(['ReplicaSet', 'StatefulSet', 'Job', 'ReplicationController'])}
             wl['extra_owner'] = r.random() < 0.4
         wl['omit_ns'] = r.random() < 0.5
         # the same name (and kind, owner) may live in two namespaces
@@ -284,7 +284,7 @@ def gen_world(r, anp=False, big=False, pods=True, multi_kind=True):
                 prs = r.choice(PROTOS)
                 for dd in dirs:
                     hi[dd][0]['ports'] = [{'portRange': {'protocol': prs, 'start': 80, 'end': 90}}]
-                    lo[dd][0]['ports'] = [{'portNumber': {'protocol': prs, 'port': 85}}]
+                    lo[dd][0]['ports'] = [{'portNumber': {'protocol': prs, 'port': 85}}] + ([{'portNumber': {'protocol': prs, 'port': 88}}] if r.random() < 0.5 else [])
             pair = [lo, hi]          # given out of priority order
             for a in pair:
                 W['anps'].insert(r.randrange(len(W['anps']) + 1), a)
@@ -396,13 +396,17 @@ def workload_manifest(w):
     meta = {'name': w['name'], 'namespace': w['ns']}
     if w.get('omit_ns') and w['ns'] == 'default':
         meta = {'name': w['name']}        # the parser puts namespaced objects without a namespace into default
+    if w['kind'] != 'Pod':
+        # labels of the controller OBJECT say nothing about its pods: those come from the pod template alone
+        meta['labels'] = {'app': 'a', 'tier': 'b', 'env': 'c'}
     k = w['kind']
     rep = w.get('replicas')
     if k == 'Pod':
         m = {'apiVersion': 'v1', 'kind': 'Pod', 'metadata': dict(meta, labels=dict(w['labels'])),
              'spec': tmpl['spec'], 'status': {'hostIP': '192.168.49.2', 'podIPs': [{'ip': '10.244.0.5'}]}}
         if w.get('owner'):
-            refs = [{'apiVersion': 'apps/v1', 'kind': w['owner']['kind'], 'name': w['owner']['name'],
+            oav = {'ReplicationController': 'v1', 'Job': 'batch/v1', 'CronJob': 'batch/v1'}.get(w['owner']['kind'], 'apps/v1')
+            refs = [{'apiVersion': oav, 'kind': w['owner']['kind'], 'name': w['owner']['name'],
                      'uid': 'u-' + w['owner']['name'], 'controller': True}]
             if w.get('extra_owner'):
                 # a non-controller owner listed first: it must not become the workload
